@@ -349,6 +349,8 @@ func NewOpLib() *OpLib {
 	exit("exit_p1_single_atom_lp1", "lp1", 1, 1, 20, 0, "uatom")
 	exit("exit_p1_single_usdc_lp1", "lp1", 1, 1, 20, 0, "uusdc")
 	exit("exit_p1_all_t1", "t1", 1, 1, 1, 0, "")
+	exit("exit_p1_all_lp1", "lp1", 1, 1, 1, 0, "")
+	exit("exit_p2_all_lp2", "lp2", 2, 1, 1, 0, "")
 	exit("exit_p2_half_lp1", "lp1", 2, 1, 2, 0, "")
 	exit("exit_p2_allbut1_lp1", "lp1", 2, 1, 1, 1, "")
 	exit("exit_p2_all_lp1", "lp1", 2, 1, 1, 0, "")
